@@ -262,6 +262,34 @@ func genUUID(e *emitter, rng *rand.Rand, thorough bool) {
 			}
 		}
 	}
+	// the SAME byte at two positions, every pair (checks that compare positions with each other instead of with '-')
+	for _, b := range []string{"550e8400-e29b-41d4-a716-446655440000", "FFFFFFFF-FFFF-FFFF-FFFF-FFFFFFFFFFFF", "00000000-0000-0000-0000-000000000000"} {
+		for p := 0; p < 36; p++ {
+			for q := p + 1; q < 36; q++ {
+				hy := (p == 8 || p == 13 || p == 18 || p == 23) && (q == 8 || q == 13 || q == 18 || q == 23)
+				if !hy && !thorough && (p*36+q)%5 != 0 {
+					continue
+				}
+				for _, v := range []byte{'_', '0', 'f', 0, 0xff, '-', ' '} {
+					bb := []byte(b)
+					bb[p], bb[q] = v, v
+					e.emit(string(bb))
+				}
+			}
+		}
+		// all four separators replaced by one byte, and each triple
+		for _, v := range []byte{'_', '0', 'a', 0, '.', ':'} {
+			for mask := 1; mask < 16; mask++ {
+				bb := []byte(b)
+				for k, pos := range []int{8, 13, 18, 23} {
+					if mask&(1<<k) != 0 {
+						bb[pos] = v
+					}
+				}
+				e.emit(string(bb))
+			}
+		}
+	}
 	// all lengths 0..40: truncations, extensions
 	for _, b := range bases[len(bases)-12:] {
 		for n := 0; n <= 40; n++ {
@@ -385,6 +413,23 @@ func genURL(e *emitter, rng *rand.Rand, thorough bool) {
 			}
 		}
 	}
+	// a forbidden byte at every position of URLs of every total length 8..70 (word- or block-wise scanners have their
+	// boundaries at multiples of 8, 16, 32 and 64)
+	for total := 8; total <= 70; total++ {
+		for _, pre := range []string{"http://", "mailto:"} {
+			base := pre + rep("abcdefghij/", total-len(pre))
+			for pos := len(pre); pos < total; pos++ {
+				if !thorough && pos < total-17 && pos%3 != 0 {
+					continue
+				}
+				for _, v := range []byte{' ', 0x7f, '\n', 0} {
+					b := []byte(base)
+					b[pos] = v
+					e.emit(string(b))
+				}
+			}
+		}
+	}
 	// exhaustive short strings over a scheme-aware alphabet
 	alpha := []string{"ws", "h", ":", "/", "a", "[", " ", "\x7f", "W", "-", "é", "file"}
 	maxn := 4
@@ -477,6 +522,19 @@ func genEmail(e *emitter, rng *rand.Rand, thorough bool) {
 				}
 				e.emit(rep("user", ll) + "@" + strings.Join(labels, "."))
 			}
+		}
+	}
+	// dot rules of the local part AT its length limits: leading / trailing / doubled dots and maximal atom counts for
+	// local parts of 60..66 bytes (a bit window or counter sized for "at most 64" overflows exactly here)
+	for ll := 60; ll <= 66; ll++ {
+		a := rep("abcdefghij", ll)
+		for _, local := range []string{
+			"." + a[1:], ".." + a[2:], a[:ll-1] + ".", a[:ll-2] + "..", a[:1] + ".." + a[3:], a[:ll/2] + ".." + a[ll/2+2:],
+			a[:ll/2] + "." + a[ll/2+1:], "." + a[1:ll-1] + ".", strings.Repeat("a.", ll/2)[:ll-1] + "a"[:ll%2] + "b"[:1-ll%2],
+			strings.Repeat(".", ll), "a" + strings.Repeat(".", ll-2) + "b",
+		} {
+			e.emit(local + "@example.com")
+			e.emit(local + "@b.c")
 		}
 	}
 	// a single over-long label in first, middle or last position (the others short), 2..8 labels
